@@ -1,0 +1,34 @@
+//go:build verif
+
+package keeper
+
+import (
+	"encoding/json"
+
+	"github.com/ExocoreNetwork/exocore/x/oracle/keeper/common"
+)
+
+// VerifOracleDump returns canonical JSON of the process-level oracle state: the deliver-side
+// aggregator context, the caches, the updated-feeder list and the cached common params, plus
+// (separately, because it is node-local) the CheckTx copy. Build tag verif only.
+func VerifOracleDump() []byte {
+	out := map[string]interface{}{
+		"agc":              agc.VerifDump(),
+		"cs":               cs.VerifDump(),
+		"updatedFeederIDs": updatedFeederIDs,
+		"common":           map[string]interface{}{"MaxNonce": common.MaxNonce, "ThresholdA": common.ThresholdA, "ThresholdB": common.ThresholdB, "MaxDetID": common.MaxDetID, "Mode": int32(common.Mode)},
+	}
+	bz, _ := json.Marshal(out)
+	return bz
+}
+
+// VerifOracleCheckDump is the CheckTx-side copy (node-local, never compared across nodes).
+func VerifOracleCheckDump() []byte {
+	bz, _ := json.Marshal(agcCheckTx.VerifDump())
+	return bz
+}
+
+// VerifOpenRounds lists the open rounds of the deliver-side aggregator.
+func VerifOpenRounds() map[uint64]uint64 {
+	return agc.VerifOpenRounds()
+}
